@@ -189,9 +189,55 @@ def gen_string(r) -> str:
     return "".join(r.choice(r.choice(pool)) for _ in range(n))
 
 
+_DIRECTIVES = None
+
+
+def directive_keys() -> set:
+    """the documented comparison directives (`x-koreo-compare-as-set` …), read off the code under test"""
+    global _DIRECTIVES
+    if _DIRECTIVES is None:
+        from koreo import constants
+
+        _DIRECTIVES = set(getattr(constants, "KOREO_DIRECTIVE_KEYS", ()))
+    return _DIRECTIVES
+
+
+def near_directive_keys() -> list:
+    """ordinary keys that merely look like directives: they share the prefix, or differ from a directive name by
+    one character (dropped, added, changed, case) — none of them IS a directive"""
+    out = ["x-koreo-", "x-koreo", "x-koreo-tier", "x-koreo-note", "x-koreo-compare", "x-koreo-compare-as", "x-koreo-x",
+           "x-koreo-compare-as-list", "xx-koreo-tier", "x-koreo.dev/tier", "koreo.dev/x-koreo-tier", "x-Koreo-tier",
+           "X-KOREO-TIER", "x_koreo_tier", " x-koreo-tier", "x-koreo-tier ", "x-koreo-\u00e9", "x-koreo-\"q\"", "x-koreo-\\n"]
+    for d in sorted(directive_keys()):
+        out += [d[:-1], d + "s", d + " ", " " + d, d.upper(), d.capitalize(), d.replace("-", "_"), d.replace("-", "--", 1),
+                d[1:], d[:8] + d[9:], d[:-1] + ("x" if d[-1] != "x" else "y"), d + "\n", d.replace("koreo", "k0reo")]
+    return [k for k in dict.fromkeys(out) if k not in directive_keys()]
+
+
+def has_directive_key(v) -> bool:
+    """an exact directive name used as a map key anywhere: stripped from API payloads by design (C08), so such a
+    value is judged on the routes that reach no API request only"""
+    if isinstance(v, dict):
+        return any(k in directive_keys() or has_directive_key(x) for k, x in v.items())
+    if isinstance(v, list):
+        return any(has_directive_key(x) for x in v)
+    return False
+
+
+API_ROUTES = {"rf", "rf-patch", "ov-rf", "ov-create"}
+
+
 def gen_key(r, used) -> str:
     for _ in range(20):
-        k = gen_string(r) if r.random() < 0.7 else r.choice(["a", "b", "k", "name", "x-y", "0", "12", "=k", "k\\n", "k\n", "k\""])
+        k = r.random()
+        if k < 0.62:
+            k = gen_string(r)
+        elif k < 0.74:
+            k = r.choice(near_directive_keys())
+        elif k < 0.77:
+            k = r.choice(sorted(directive_keys()) or ["x-koreo-compare-as-set"])
+        else:
+            k = r.choice(["a", "b", "k", "name", "x-y", "0", "12", "=k", "k\\n", "k\n", "k\""])
         if k not in used and not any(0xD800 <= ord(c) < 0xE000 for c in k):
             used.add(k)
             return k
@@ -633,6 +679,8 @@ ALL_ROUTES = {**ROUTES, **OV_ROUTES}
 
 def judge(route: str, v):
     """the property's clause on one route: None if the value arrived as written, else a description"""
+    if route in API_ROUTES and has_directive_key(v):
+        return None          # directives are stripped from payloads by design; judged on the other routes
     try:
         status, got = ALL_ROUTES[route](v)
     except Infra:
@@ -1107,6 +1155,22 @@ def search(ck, quick_budget: bool, salt: str = ""):
         for route in ("vf", "rf", "rf-patch", "wf", "wf-state"):
             ck.count(f"oracle:{route}")
             oracle_batch_e2e(ck, nv, route)
+    # keys that look like comparison directives but are not (shared prefix, one character off): as top-level data keys,
+    # as label-style nested keys, inside lists — on every route, the API payload routes included; and the exact
+    # directive names on the routes that reach no API request (there they are ordinary keys)
+    near = [k for k in near_directive_keys() if in_domain_str(k)]
+    near_value = {"labels": {k: "v" for k in near}, "items": [{k: i} for i, k in enumerate(near[:12])],
+                  **{k: i for i, k in enumerate(near)}}
+    exact_value = {"labels": {k: ["a"] for k in sorted(directive_keys())}, **{k: i for i, k in enumerate(sorted(directive_keys()))}}
+    for route in ("unit", "vf", "rf", "rf-patch", "wf", "wf-state"):
+        ck.count(f"oracle:{route}")
+        ck.count("oracle:near-directive-keys", len(near))
+        oracle_batch_e2e(ck, near_value, route)
+        if route not in API_ROUTES:
+            oracle_batch_e2e(ck, exact_value, route)
+    for route in OV_ROUTES:
+        ck.count(f"oracle:{route}")
+        oracle_batch_e2e(ck, [[{"a": 1}, [{k: 1 for k in near}]], [ABSENT, [{k: [k]} for k in near[:8]]], [[1], near[:6]]], route)
     n_e2e = 150 if quick_budget else 3000
     for i in range(n_e2e):
         batch = []
